@@ -6,6 +6,7 @@ from ..core import astq
 from ..core.cfg import CFG, guards_of, ENTRY, EXIT, EXC
 from ..core.types import is_inst
 from . import common as K
+from . import optalg
 from . import discretise
 from .c08 import engines, COPY_CALLS
 
@@ -27,6 +28,9 @@ def run(ctx):
     ctx.each(r15d, ctx, repo, T)
     ctx.each(r15e, ctx, repo)
     ctx.each(r15f, ctx, repo, E)
+    ctx.each(optalg.objective_definition, ctx, repo, "R15g")
+    ctx.each(optalg.evaluation_pipeline, ctx, repo, "R15h")
+    ctx.each(optalg.proposal_application, ctx, repo, "R15i")
 
 
 def _chain_txt(e):
